@@ -337,6 +337,17 @@ def unwrap(n):
     return n
 
 
+def as_assign(n):
+    """(lhs, rhs, op) for a built-in assignment or an overloaded operator= / compound assignment call"""
+    if not isinstance(n, dict):
+        return None
+    if n.get("k") == "asg":
+        return n["l"], n["r"], n["op"]
+    if n.get("k") == "call" and n.get("op") in ("=", "+=", "-=", "*=", "/=") and n.get("r") is not None and len(n.get("a", [])) == 1:
+        return n["r"], n["a"][0], n["op"]
+    return None
+
+
 def short_type(t):
     t = t.replace("OpenVolumeMesh::", "")
     return t
